@@ -192,6 +192,11 @@ def zero_bound_predicted(case):
         dm = I.mk(case)
         r = M.make({"name": case["dmaker"]}).evaluate(dm)
         order = list(r.to_series().sort_values().index)
+        if case.get("drop") == "every":
+            # the decision maker never ranks the dropped alternative: the checker lists it last in the reference
+            # ranking (allow_missing_alternatives), so it is the one bounded by the aggregate
+            d = case["alternatives"][-1]
+            order = [a for a in order if a != d] + [d]
         rows = [case["matrix"][case["alternatives"].index(a)] for a in order[1:]]
         gaps = [[abs(x - y) for x, y in zip(rows[k], rows[k + 1])] for k in range(len(rows) - 1)]
         m = len(case["weights"])
@@ -302,7 +307,11 @@ def replay(ctx, rep):
     if "script" in case:
         print("re-run the check: the zero-gap termination case is exercised on every run")
         return 0
-    o = run_impl(case)
+    o = I.pmap_timeout(run_impl, [case], 60)[0]
+    if o.get("timeout"):
+        print("the experiment did not come back within 60 s (non-termination); zero bound predicted:",
+              zero_bound_predicted(case))
+        return 1
     if "error" in o:
         print("implementation raised:", o)
         return 1
